@@ -5,9 +5,9 @@ CONSTANTS
   Dev_h13 = FALSE
   Dev_t127 = FALSE
   Dev_mdict = FALSE
-  Dev_drop = TRUE
-  Dev_cryptv = TRUE
-  Dev_mdstr = TRUE
+  Dev_drop = FALSE
+  Dev_cryptv = FALSE
+  Dev_mdstr = FALSE
   Dev_osrep = FALSE
   Dev_dparr = FALSE
   DocIds = {"D1", "D2", "D3", "D4", "D5", "D6"}
@@ -23,7 +23,7 @@ CONSTANTS
   MaxDepth = 5
   Emit = TRUE
   KnownTags <- AllKnown
-INVARIANTS OnlyKnown JudgeTracks EmitInv
+INVARIANTS AsSpecified OnlyKnown JudgeTracks EmitInv
 CONSTRAINT Bound
 VIEW View
 CHECK_DEADLOCK FALSE
